@@ -36,8 +36,10 @@ func main() {
 	replay := flag.String("replay", "", "re-evaluate the obligations of a violations file")
 	inv := flag.String("inventory", "", "print an inventory (development aid)")
 	evd := flag.String("evidence-dir", "", "write evidence and violation files here instead of <verif>/evidence (development aid)")
+	snapAnchors := flag.String("snapshot-anchors", "", "after the run, write the fingerprints of all resolved anchors to this file (development aid; commit it as ycheck/anchors.json)")
 	flag.Parse()
 	evidenceOverride = *evd
+
 	if t := os.Getenv("VERIF_TIER"); t == "quick" || t == "thorough" {
 		*tier = t
 	}
@@ -108,6 +110,11 @@ func main() {
 		if code == 1 {
 			exit = 1
 		}
+	}
+	if *snapAnchors != "" {
+		b, _ := json.MarshalIndent(anchorRecord, "", " ")
+		os.WriteFile(*snapAnchors, append(b, '\n'), 0o644)
+		fmt.Printf("wrote %d anchor fingerprints to %s\n", len(anchorRecord), *snapAnchors)
 	}
 	os.Exit(exit)
 }
